@@ -14,6 +14,7 @@ import (
 
 	"google.golang.org/grpc"
 	"google.golang.org/grpc/codes"
+	"google.golang.org/grpc/stats"
 	"google.golang.org/grpc/status"
 	"google.golang.org/protobuf/proto"
 	"google.golang.org/protobuf/types/dynamicpb"
@@ -83,7 +84,23 @@ func (d *deadlineImpl) Unary(c *dyn.Call) (proto.Message, error) {
 }
 func (d *deadlineImpl) Stream(c *dyn.Call) error { return nil }
 
+// slowStats is a stats handler that takes its time over TagRPC and notes when it was asked: the
+// request had been received by then, so "T after receipt" is at most T after that moment -
+// however long the stats handler, the interceptors or the scheduler take afterwards.
+type slowStats struct {
+	statsProbe
+	entered time.Time
+}
+
+func (s *slowStats) TagRPC(ctx context.Context, i *stats.RPCTagInfo) context.Context {
+	s.entered = time.Now()
+	time.Sleep(25 * time.Millisecond)
+	return ctx
+}
+
 type c15Env struct {
+	muxSlow *larking.Mux // behind a stats handler whose TagRPC is slow
+	slow    *slowStats
 	mux     *larking.Mux // plain
 	muxOpts *larking.Mux // the same service behind pass-through interceptors and a stats handler
 	k       int          // calls alternate between the two
@@ -116,7 +133,8 @@ func newC15Env(t *tSchema) *c15Env {
 		}
 		return m
 	}
-	return &c15Env{mux: mk(), muxOpts: mk(c15PassThroughOpts()...), impl: impl, body: wire.GRPCFrame(0, nil)}
+	slow := &slowStats{}
+	return &c15Env{mux: mk(), muxOpts: mk(c15PassThroughOpts()...), muxSlow: mk(larking.StatsOption(slow)), slow: slow, impl: impl, body: wire.GRPCFrame(0, nil)}
 }
 
 var maxDur = big.NewInt(math.MaxInt64)
@@ -186,6 +204,35 @@ func (e *c15Env) timeoutCheck(to string, signedNotDemanded bool) (oracle, note s
 		return "deadline-wrong", fmt.Sprintf("grpc-timeout %q = %v: deadline is %v after receipt (handler ran %v after receipt)", to, T, d.Sub(lo), hi.Sub(lo))
 	}
 	return "", "deadline-ok"
+}
+
+// slowStatsCheck: the deadline counts from receipt, not from whenever the options are done.
+func (e *c15Env) slowStatsCheck(to string) (oracle, note string) {
+	e.impl.calls, e.impl.has = 0, false
+	e.slow.entered = time.Time{}
+	hdr := http.Header{"Grpc-Timeout": {to}, "Content-Type": {"application/grpc"}}
+	req := newPostRequest("/vs.T/Unary", hdr, env.NewReader(env.Script{Data: e.body}), -1)
+	req.Proto, req.ProtoMajor, req.ProtoMinor = "HTTP/2.0", 2, 0
+	before := time.Now()
+	sr := serveReq(e.muxSlow, req)
+	if sr.Panicked {
+		return "panic", sr.Panic
+	}
+	want, _ := refTimeout(to)
+	T := time.Duration(want.Int64())
+	if e.slow.entered.IsZero() {
+		return "harness", "the stats handler was not asked"
+	}
+	if e.impl.calls == 0 {
+		return "", "expired-before-handler"
+	}
+	if !e.impl.has {
+		return "no-deadline", fmt.Sprintf("grpc-timeout %q: the handler's context has no deadline (mux with a slow stats handler)", to)
+	}
+	if d := e.impl.deadline; d.Before(before.Add(T)) || d.After(e.slow.entered.Add(T)) {
+		return "deadline-not-from-receipt", fmt.Sprintf("grpc-timeout %q = %v: the deadline is %v after the request was handed to ServeHTTP and %v after the stats handler was first asked about it - it was not counted from receipt", to, T, d.Sub(before), d.Sub(e.slow.entered))
+	}
+	return "", "deadline-from-receipt"
 }
 
 func c15Malformed() []string {
@@ -321,6 +368,18 @@ func runC15Timeouts(c *Ctx, t *tSchema) {
 		} else {
 			r.Outcome("timeout:" + note)
 			r.Distinct("malformed|" + to)
+		}
+	}
+	// behind a slow stats handler the deadline still counts from receipt
+	for _, to := range []string{"1S", "1000m", "1500000u", "00000002S", "5M", "1H", "100m", "20m", "99999999n", "3S", "30000m", "7H"} {
+		oracle, note := e.slowStatsCheck(to)
+		r.Eval(1)
+		if oracle != "" {
+			r.Outcome("FAIL:" + oracle)
+			r.Violation(report.Violation{Oracle: oracle, Key: oracle + " grpc-timeout=" + fmt.Sprintf("%q", to), Case: c15TimeoutCase{to}, Note: note})
+		} else {
+			r.Outcome("timeout:" + note)
+			r.Distinct("slow-stats|" + to)
 		}
 	}
 	r.Set("timeout_values_full_path", total.Load())
@@ -622,7 +681,7 @@ func c15Scenarios(thorough bool) []*e3Scenario {
 
 func runC15(c *Ctx) {
 	r := c.Run
-	r.Rule("part 1: every grpc-timeout of 1..5 (thorough 1..7) digits × 6 units through the real gRPC entry path (deadline bracket t_receipt+T <= deadline <= t_handler+T, hour clamp), boundary values of the remaining digit counts through the full path and strides (thorough: the complete 8-digit layer) through the parser hook, 32 malformed shapes; part 2: scenarios {gRPC, gRPC-web, HTTP transcoding} × {unary, client-, server-, bidi-streaming} (+ two with a goroutine leaked by the handler that keeps sending, + four on a mux with pass-through interceptors and a stats handler; part 1 alternates between the plain mux and such a mux): server thread, client feeder thread (messages, half-close), client cancel thread (cancel + failing reads/writes, as net/http does); every interleaving up to the preemption bound; oracle per schedule: after the cancellation every handler observation of ctx.Err() is non-nil, stream calls started after it fail, a parked Recv is released, ServeHTTP returns (deadlock detection), nothing is written to the ResponseWriter after ServeHTTP returned; part 3: real clients against larking.NewServer on loopback that read the first reply and go away (raw TCP: gRPC-web / gRPC-web-text / HTTP transcoding over HTTP/1.1 with Content-Length and chunked bodies; grpc-go over h2c) - the handler's context must be cancelled; distinct = timeout shards + (scenario, outcome)")
+	r.Rule("part 1: every grpc-timeout of 1..5 (thorough 1..7) digits × 6 units through the real gRPC entry path (deadline bracket t_receipt+T <= deadline <= t_handler+T, hour clamp), boundary values of the remaining digit counts through the full path and strides (thorough: the complete 8-digit layer) through the parser hook, 32 malformed shapes, 12 values behind a stats handler whose TagRPC takes 25 ms (deadline <= t_first_stats_call+T: counted from receipt, not from when the options are done); part 2: scenarios {gRPC, gRPC-web, HTTP transcoding} × {unary, client-, server-, bidi-streaming} (+ two with a goroutine leaked by the handler that keeps sending, + four on a mux with pass-through interceptors and a stats handler; part 1 alternates between the plain mux and such a mux): server thread, client feeder thread (messages, half-close), client cancel thread (cancel + failing reads/writes, as net/http does); every interleaving up to the preemption bound; oracle per schedule: after the cancellation every handler observation of ctx.Err() is non-nil, stream calls started after it fail, a parked Recv is released, ServeHTTP returns (deadlock detection), nothing is written to the ResponseWriter after ServeHTTP returned; part 3: real clients against larking.NewServer on loopback that read the first reply and go away (raw TCP: gRPC-web / gRPC-web-text / HTTP transcoding over HTTP/1.1 with Content-Length and chunked bodies; grpc-go over h2c) - the handler's context must be cancelled; distinct = timeout shards + (scenario, outcome)")
 	r.Assume("'promptly' means at the handler's next observation; real RST_STREAM delivery is net/http's job", "signed timeout values are not demanded either way")
 	t, err := newTSchema()
 	if err != nil {
@@ -649,6 +708,9 @@ func replayC15(c *Ctx, v report.Violation) {
 		oracle, note := e.timeoutCheck(tc.Timeout, true) // plain mux
 		if oracle == "" {
 			oracle, note = e.timeoutCheck(tc.Timeout, true) // mux with options
+		}
+		if _, valid := refTimeout(tc.Timeout); oracle == "" && valid {
+			oracle, note = e.slowStatsCheck(tc.Timeout)
 		}
 		fmt.Printf("replay: grpc-timeout=%q -> oracle=%q %s\n", tc.Timeout, oracle, note)
 		if oracle != "" {
